@@ -72,6 +72,20 @@ var (
 	netFac  = flag.String("facts", "", "unused (no source-derived facts)")
 )
 
+// Hooks filled in by verif_c01_test.go, which is part of C01's overlay only (C04's test binary does
+// not contain that file: every hook is nil there and the C04 runs are exactly what they were).
+var (
+	netC01Pick      func(idx int) string                                  // scripted family of C01 run idx ("" = random run)
+	netC01Direct    func(o *netOut, r *netRand, idx int, kind string)     // families that need no network ("direct:...")
+	netC01Roles     func(s *netSim, vals []*types.Validator)              // Byzantine set / roles of a scripted C01 run
+	netC01Run       func(s *netSim) bool                                  // scripted prefix of a C01 run
+	netC01AfterStep func(s *netSim, nd *netNode, what string)             // state oracles after every input of a node
+	netC01OnSign    func(s *netSim, node int, ht *netHeight, e netSig, bid types.BlockID) // oracles on a correct node's signature
+	netC01SyncKinds func(s *netSim, h uint64, ht *netHeight, first, second *types.Block, kind string) (*types.Block, *types.Block, bool)
+	netC01ByzCommit func(s *netSim, h uint64, commit *types.Commit) (*types.Commit, string) // forged LastCommit of a Byzantine proposal
+	netC01NoteBlock func(s *netSim, blk *types.Block, kind string)                          // a Byzantine block and how it was made
+)
+
 type netRand struct{ s uint64 }
 
 func netNewRand(seed uint64) *netRand { return &netRand{s: seed*0x9E3779B97F4A7C15 + 0x7654321} }
@@ -592,6 +606,7 @@ type netSim struct {
 	stuck   bool
 	voteClock int64
 	lastCfg *configs.ConsensusConfig
+	c01     interface{} // state of verif_c01_test.go's scripted families and oracles
 }
 
 func (s *netSim) fail(class, detail string) {
@@ -701,6 +716,9 @@ func (s *netSim) logSig(node int, typ kproto.SignedMsgType, h uint64, round uint
 		s.o.Count("sig:byz")
 	} else {
 		s.o.Count("sig:correct")
+		if netC01OnSign != nil && s.mode == "C01" {
+			netC01OnSign(s, node, ht, e, bid)
+		}
 	}
 }
 
@@ -890,6 +908,9 @@ func (s *netSim) guard(nd *netNode, what string, f func()) {
 	// a new height may have begun
 	if nd.dead == "" {
 		s.height(nd.cs.Height, &nd.cs.state)
+		if netC01AfterStep != nil && s.mode == "C01" {
+			netC01AfterStep(s, nd, what)
+		}
 	}
 }
 
@@ -1151,6 +1172,12 @@ func (s *netSim) byzBlock(h uint64, proposer int, kind string) (*types.Block, *t
 	if commit == nil {
 		return nil, nil
 	}
+	if s.mode == "C01" && netC01ByzCommit != nil && h > 1 && kind == "valid" {
+		var fk string
+		if commit, fk = netC01ByzCommit(s, h, commit); fk != "" {
+			kind = fk
+		}
+	}
 	ts := st.LastBlockTime
 	if h > 1 {
 		ts = cstate.MedianTime(commit, st.LastValidators)
@@ -1173,6 +1200,9 @@ func (s *netSim) byzBlock(h uint64, proposer int, kind string) (*types.Block, *t
 	ps := blk.MakePartSet(size)
 	s.noteBlock(blk, ps, false)
 	s.o.Count("byz:block:" + kind)
+	if s.mode == "C01" && netC01NoteBlock != nil {
+		netC01NoteBlock(s, blk, kind)
+	}
 	return blk, ps
 }
 
@@ -2112,9 +2142,23 @@ func (s *netSim) blockSync() {
 		first, second := src.bo.blocks[h], src.bo.blocks[h+1]
 		ht := s.hs[h]
 		if s.r.Chance(1, 2) && !queued[h] && !queued[h+1] && ht != nil {
-			kind := []string{"insufficient", "foreign", "other-block", "byz-only"}[s.r.Intn(4)]
+			kinds := []string{"insufficient", "foreign", "other-block", "byz-only"}
+			if s.mode == "C01" && netC01SyncKinds != nil {
+				kinds = append(kinds, "byz-repeated-addr", "byz-repeated-slot", "byz-repeated-addr", "permuted", "other-round")
+			}
+			kind := kinds[s.r.Intn(len(kinds))]
 			bf, bs := first, second
 			lc := second.LastCommit()
+			switch kind {
+			case "insufficient", "foreign", "other-block", "byz-only":
+			default:
+				var ok bool
+				if bf, bs, ok = netC01SyncKinds(s, h, ht, first, second, kind); !ok {
+					s.o.Count("blocksync:kind-not-applicable:" + kind)
+					kind = "insufficient"
+					bf, bs = first, second
+				}
+			}
 			switch kind {
 			case "insufficient": // the commit keeps at most 2/3 of the power
 				cp := types.NewCommit(lc.Height, lc.Round, lc.BlockID, append([]types.CommitSig{}, lc.Signatures...))
@@ -2545,14 +2589,24 @@ func netRun(o *netOut, r *netRand, idx int, mode string) {
 	n := 4 + r.Intn(4)
 	if mode == "C04" && idx%10 == 9 {
 		s.scenario = "bft-time"
-		n = 4
 	}
 	if mode == "C04" && idx%10 == 8 {
 		s.scenario = "stale-lock"
-		n = 4
 	}
 	if mode == "C04" && idx%10 == 7 {
 		s.scenario = "commit-skip"
+	}
+	c01Scripted := false // a scripted family of verif_c01_test.go (its own roles, 4..7 validators)
+	if mode == "C01" && netC01Pick != nil {
+		s.scenario = netC01Pick(idx)
+		if strings.HasPrefix(s.scenario, "direct:") {
+			netC01Direct(o, r, idx, s.scenario)
+			return
+		}
+		c01Scripted = s.scenario != "" && s.scenario != "stale-lock" && s.scenario != "commit-skip"
+	}
+	switch s.scenario {
+	case "bft-time", "stale-lock", "commit-skip":
 		n = 4
 	}
 	s.n = n
@@ -2578,6 +2632,12 @@ func netRun(o *netOut, r *netRand, idx int, mode string) {
 	}
 	if dist == "skewed" {
 		pw[r.Intn(n)] = int64(4 + r.Intn(int(n)))
+	}
+	if c01Scripted { // equal powers of a random unit
+		u := []int64{1, 1, 3, 10, 1 << 33}[r.Intn(5)]
+		for k := range pw {
+			pw[k] = u
+		}
 	}
 	if dist == "one-third-edge" { // one validator just below a third of the total
 		// total = 3(n-1) + x with 3x < total  <=>  2x < 3(n-1)
@@ -2642,7 +2702,9 @@ func netRun(o *netOut, r *netRand, idx int, mode string) {
 		vals = append(vals, types.NewValidator(s.keys[i].GetAddress(), pw[i]))
 	}
 	useDoc := r.Chance(1, 2)
-	if s.scenario != "" {
+	if c01Scripted {
+		netC01Roles(s, vals)
+	} else if s.scenario != "" {
 		// exactly one Byzantine validator, not the proposer of the first two rounds
 		vs0 := types.NewValidatorSet(vals)
 		prop := vs0.GetProposer().Address
@@ -2715,6 +2777,10 @@ func netRun(o *netOut, r *netRand, idx int, mode string) {
 	if s.scenario == "commit-skip" {
 		ok = s.commitSkipScenario() && s.synchronous(1)
 		o.Count("scenario:commit-skip")
+	}
+	if c01Scripted {
+		ok = netC01Run(s) && s.synchronous(1)
+		o.Count("scenario:" + s.scenario)
 	}
 	for T := uint64(1); T <= uint64(s.heights) && ok && s.scenario == ""; T++ {
 		budget := 0
